@@ -10,13 +10,16 @@ TOKENIZER = r"""
     (?P<SPACE>\s+)
     |(?P<X>x)
     |(?P<YY>y)
-    |(?P<WORD>[a-z]+)
+    |(?P<IDENT>[a-z]+)
 """
-SYNONYMS = {"X": "x", "YY": "y"}
+# the keywords are keyed on a token name that is itself the target of a synonym (IDENT -> WORD)
+SYNONYMS = {"X": "x", "YY": "y", "IDENT": "WORD"}
 KEYWORDS = {("WORD", "zed"): "z", ("WORD", "wug"): "w"}
-LEXEME = {"x": "x", "y": "y", "z": "zed", "w": "wug"}
+LEXEME = {"x": "x", "y": "y", "z": "zed", "w": "wug", "WORD": "foo"}
 TERMS = ["x", "y", "z"]
 TERMS4 = ["x", "y", "z", "w"]
+TERMS_WORD = ["x", "z", "WORD"]
+ALL_TERMS = ["x", "y", "z", "w", "WORD"]
 
 # families: role-named non-terminals S (start), A, B, C; '?k' = hole k; '-' = empty alternative
 FAMILIES: Dict[str, Tuple[str, List[str]]] = {
@@ -43,6 +46,12 @@ FAMILIES: Dict[str, Tuple[str, List[str]]] = {
     "prefixmid": ("S: x y ?0 | x A ?1 | x y ?2 ; A: y | ?3", ["x", "y", "z", "w"]),
     "prefixrec": ("S: A ?0 ?1 | A ?2 ?3 ; A: x | -", ["x", "y", "S", "A"]),
     "unreach": ("S: x ?0 ; A: ?1 A | B ; B: ?2 | -", ["x", "y", "A", "B"]),
+    # a plain WORD next to a keyword made of a WORD
+    "kwword": ("S: z ?0 | WORD ?1 | ?2 ; A: WORD | z A | -", ["x", "z", "WORD", "A", "S", "-"]),
+    # a symbol that derives only the empty string, at the head of a production
+    "epsonly": ("S: B ?0 | ?1 ; B: A ?2 ?3 ; A: -", ["x", "y", "z", "A", "B"]),
+    # a symbol that is nullable only through its production (no empty alternative of its own), in front of a recursion
+    "derivnull": ("S: B ?0 | z ; B: C ?1 x | ?2 ; C: A D ; A: x | - ; D: ?3 | -", ["x", "y", "B", "-"]),
 }
 
 
@@ -246,6 +255,8 @@ def all_token_strings(maxlen: int, terms=None):
 
 def terms_of(g):
     """3 terminals unless the grammar uses the 4th one"""
+    if any("WORD" in alt for alts in g.values() for alt in alts):
+        return TERMS_WORD
     return TERMS4 if any("w" in alt for alts in g.values() for alt in alts) else TERMS
 
 
@@ -274,7 +285,7 @@ def check_derivation(root, g, start, toks) -> Optional[str]:
                 if e:
                     return e
             return None
-        if node.name in TERMS4:
+        if node.name in ALL_TERMS:
             if not isinstance(node.value, str):
                 return f"leaf {node.name!r} has value {node.value!r}"
             leaves.append((node.name, node.value))
